@@ -317,7 +317,7 @@ PROPS["C06"]["level_text"] += (" Second tie (domain wc): generated Taskfiles ref
 
 
 PROPS["C10"] = {
-    "lean": "Props.C10", "domains": [{"name": "vars", "env": {"VERIF_VARS_ENVDEP": "0"}}],
+    "lean": "Props.C10", "domains": [{"name": "vars", "env": {"VERIF_VARS_ENVDEP": "0"}}, {"name": "varscli"}], "cli": True,
     "trusted": ["the shell is an input of the model (theorems hold for every shell); the harness reads the abstract definition layers back from what Task "
                 "loaded (Compiler.TaskfileEnv/TaskfileVars, Task.IncludeVars/IncludedTaskfileVars/Vars) and parses only the template forms its generator emits"],
     "assumptions": ["templates are concatenations of text and {{.NAME}} references; values are strings; env-precedence experiment off in the harness process "
@@ -456,7 +456,16 @@ def _c11_env_cache(m):
     return all(pool[i] in tainted for i in range(len(pool)) if a[i] != b[i])
 
 
+def _c10_cli_specials(m):
+    """C10-cli-specials-defined-after-globals, one mechanism only: the monitor line of the CLI stream (`vars.climon`) for a declared
+    global / global env entry that refers to CLI_* names only, and the value printed is exactly the entry's text with those references
+    rendered empty (tag set by the harness)."""
+    return (m.get("domain") == "varscli" and m.get("case_line", "").startswith("vars.climon ")
+            and m["impl"].endswith(" cli-special-empty"))
+
+
 FINDING_PREDICATES = {
+    "C10-cli-specials-defined-after-globals": _c10_cli_specials,
     "C11-dynamic-cache-ignores-env": _c11_env_cache,
     "C19-cli-values-are-templated": _c19_values_templated,
     "C19-no-value-text-deleted": _c19_no_value_deleted,
